@@ -128,21 +128,38 @@ def mk_universe(u):
     return DynamicUniverse(dict((a, (None if e is None else ts(e))) for a, e in u[1]))
 
 
-def csv_handler(m, universe, keep=None):
+def write_csvs(d, assets):
+    for name, rows in assets.items():
+        with open(os.path.join(d, name + '.csv'), 'w') as f:
+            f.write('Date,Open,High,Low,Close,Adj Close,Volume\n')
+            for day, o, c, a in rows:
+                date = (EPOCH + datetime.timedelta(days=day)).isoformat()
+                cell = lambda x: '' if x is None else repr(float(x))
+                f.write('%s,%s,%s,%s,%s,%s,1000\n' % (date, cell(o), cell(o), cell(o), cell(c), cell(a)))
+
+
+def csv_handler(m, universe, keep=None, share_handler=False):
+    """keep = (sources, handler) of an earlier session: re-use the data sources (and, if asked, the handler itself).
+    m['backup'] = a second vendor's files for the same assets, queried after the primary one."""
+    if keep is not None:
+        sources, dh = keep
+        if share_handler:
+            return dh, keep
+        return BacktestDataHandler(universe, data_sources=list(sources)), keep
     os.makedirs(TMPROOT, exist_ok=True)
-    d = tempfile.mkdtemp(prefix='sess_', dir=TMPROOT)
+    dirs = []
     try:
-        for name, rows in m['assets'].items():
-            with open(os.path.join(d, name + '.csv'), 'w') as f:
-                f.write('Date,Open,High,Low,Close,Adj Close,Volume\n')
-                for day, o, c, a in rows:
-                    date = (EPOCH + datetime.timedelta(days=day)).isoformat()
-                    cell = lambda x: '' if x is None else repr(float(x))
-                    f.write('%s,%s,%s,%s,%s,%s,1000\n' % (date, cell(o), cell(o), cell(o), cell(c), cell(a)))
-        ds = keep if keep is not None else CSVDailyBarDataSource(d, Equity, adjust_prices=m.get('adjust', True))
+        sources = []
+        for assets in [m['assets']] + ([m['backup']] if m.get('backup') else []):
+            d = tempfile.mkdtemp(prefix='sess_', dir=TMPROOT)
+            dirs.append(d)
+            write_csvs(d, assets)
+            sources.append(CSVDailyBarDataSource(d, Equity, adjust_prices=m.get('adjust', True)))
     finally:
-        shutil.rmtree(d, ignore_errors=True)
-    return BacktestDataHandler(universe, data_sources=[ds]), ds
+        for d in dirs:
+            shutil.rmtree(d, ignore_errors=True)
+    dh = BacktestDataHandler(universe, data_sources=list(sources))
+    return dh, (sources, dh)
 
 
 def run_session(c, shared_ds=None):
@@ -156,7 +173,7 @@ def run_session(c, shared_ds=None):
         if m['kind'] == 'table':
             dh = TableDataHandler(m['rows'])
         else:
-            dh, ds = csv_handler(m, universe, keep=shared_ds)
+            dh, ds = csv_handler(m, universe, keep=shared_ds, share_handler=bool(c.get('share_handler')))
     except Exception as e:
         return {'init': errname(e)}, None
     signals = None
@@ -270,11 +287,12 @@ def handler(c):
         extra = c.get('extra_queries') or []
         if ds is not None:
             for asset, t in extra:
-                try:
-                    ds.get_bid(ts(t), asset)
-                    ds.get_ask(ts(t), asset)
-                except Exception:
-                    pass
+                for src in ds[0]:
+                    try:
+                        src.get_bid(ts(t), asset)
+                        src.get_ask(ts(t), asset)
+                    except Exception:
+                        pass
         b, _ = run_session(c, shared_ds=ds)
         return {'first': a, 'second': b}
     if c.get('mode') == 'after_other':
@@ -286,10 +304,11 @@ def handler(c):
         extra = c.get('extra_queries') or []
         if ds is not None:
             for asset, t in extra:
-                try:
-                    ds.get_bid(ts(t), asset)
-                except Exception:
-                    pass
+                for src in ds[0]:
+                    try:
+                        src.get_bid(ts(t), asset)
+                    except Exception:
+                        pass
         reused, _ = run_session(c, shared_ds=ds)
         return {'first': fresh, 'second': reused, 'other_ok': first['init']}
     if c.get('mode') == 'pair':
